@@ -35,13 +35,18 @@ Delete(x) == {SubSeq(x, 1, j - 1) \o SubSeq(x, j + 1, Len(x)) : j \in DOMAIN x}
 Cut(x) == {Append(SubSeq(x, 1, j), t) : j \in 0..(Len(x) - 1), t \in Truncs}
 Neighbourhood == UNION {Subst(x) \cup Insert(x) \cup Delete(x) \cup Cut(x) \cup {x} : x \in Templates}
 
-\* witness programs: every version x program length 2..40 (and the lengths just outside)
-WitLens == {1, 2, 3, 19, 20, 21, 31, 32, 33, 39, 40, 41, 75}
-Witness == {<<Op(v), Push("d", n)>> : v \in {"OP0", "N1", "N2", "N16", "NEG1"}, n \in WitLens}
-\* m-of-n shapes: m, n in {0 (OP_0), 1, 2, 3, 16} with 0..4 keys of several forms
+\* witness programs: every version OP_0, OP_1..OP_16 (and OP_1NEGATE) x program lengths 1..41 and 75
+NNames == {"N1", "N2", "N3", "N4", "N5", "N6", "N7", "N8", "N9", "N10", "N11", "N12", "N13", "N14", "N15", "N16"}
+WitLens == (1..41) \cup {75}
+Witness == {<<Op(v), Push("d", n)>> : v \in NNames \cup {"OP0", "NEG1"}, n \in WitLens}
+\* m-of-n shapes: m, n over OP_0 / numbers / a non-number with 0..3 keys of several forms ...
 KeySeqs == UNION {[1..k -> {K33, Push("d", 65), Push("d", 20), Push("p1", 33), Op("OP0")}] : k \in 0..3}
 Multisigs == {<<Op(m)>> \o ks \o <<Op(n), Op("CHECKMULTISIG")>> : m \in {"OP0", "N1", "N2", "N3", "N16"}, n \in {"OP0", "N1", "N2", "N3", "N16", "DUP"}, ks \in KeySeqs}
+\* ... and the full grid 1 <= m, n <= 16 with n-1, n, n+1 keys (m > n, wrong n included)
+Grid == {<<Op(m)>> \o [i \in 1..k |-> K33] \o <<Op(n), Op("CHECKMULTISIG")>> :
+           m \in NNames, n \in NNames, k \in 0..17} 
+GridNear == {x \in Grid : LET n == NumOf[x[Len(x) - 1].name] IN Len(x) - 3 \in {n - 1, n, n + 1}}
 
-UniverseQ == WithTrunc(SeqsOver(SmallAlphabet, L)) \cup SeqsOver(Alphabet, 2) \cup Neighbourhood \cup Witness \cup Multisigs
-UniverseT == WithTrunc(SeqsOver(Alphabet, L)) \cup Neighbourhood \cup Witness \cup Multisigs
+UniverseQ == WithTrunc(SeqsOver(SmallAlphabet, L)) \cup SeqsOver(Alphabet, 2) \cup Neighbourhood \cup Witness \cup Multisigs \cup GridNear
+UniverseT == WithTrunc(SeqsOver(Alphabet, L)) \cup Neighbourhood \cup Witness \cup Multisigs \cup GridNear
 =============================================================================
